@@ -1,0 +1,10 @@
+// +build !verif
+
+package txmgr
+
+// Simulation knobs (see simhook_verif.go). With the "verif" build tag off they
+// are zero constants and the code they guard is compiled away.
+
+// simRemoveRound: override of the number of credits one removal round deletes
+// (0 = none).
+const simRemoveRound = 0
